@@ -254,7 +254,7 @@ Fixpoint size (e : expr) : nat :=
   | EArr es | ECall _ es => S (fold_right (fun x n => size x + n) 0 es)
   | _ => 1
   end.
-Definition need (e : expr) : nat := 32 * size e.
+Definition need (e : expr) : nat := 64 * size e.
 
 Lemma size_pos : forall e, 1 <= size e.
 Proof. destruct e; simpl; lia. Qed.
@@ -869,7 +869,7 @@ Section RT4.
     forall is_close ck ct rest f g,
       is_close ck = true -> closer ck = true -> is_close KComma = false ->
       (forall k, good_head k = true -> is_close k = false) ->
-      32 * sum_size es + 16 <= f -> List.length es < g ->
+      64 * sum_size es + 16 <= f -> List.length es < g ->
       parse_seq (parse_at f) g is_close (pr_list extra es ++ (ck, ct) :: rest) = POk es rest.
   Proof.
     induction es as [|x es IHes]; intros Hall is_close ck ct rest f g Hck Hcl Hcomma Hgh Hf Hg.
@@ -1011,7 +1011,7 @@ Section RT5.
 
   Lemma tern_step : forall c t e0 rest B f g,
     opt_ok t -> size e0 <= n -> printable e0 = true ->
-    ctx_ok false B 2 rest -> 32 * opt_size t + need e0 + 16 + B <= f ->
+    ctx_ok false B 2 rest -> 64 * opt_size t + need e0 + 16 + B <= f ->
     tern_loop (parse_at f) false (S g) c
       (tk KQuestion "?" :: opt_toks t ++ tk KColon ":" :: prx 2 e0 ++ rest)
     = tern_loop (parse_at f) false g (ECond c t e0) rest.
@@ -1039,7 +1039,7 @@ Section RT5.
   (* the context of the condition of a ternary *)
   Lemma cond_ctx : forall t e0 rest,
     opt_ok t ->
-    ctx_ok false (32 * opt_size t + 16) 2
+    ctx_ok false (64 * opt_size t + 16) 2
       (tk KQuestion "?" :: opt_toks t ++ tk KColon ":" :: prx 2 e0 ++ rest).
   Proof.
     intros t e0 rest Ht. split; [|split].
@@ -1084,7 +1084,7 @@ Section RT5.
         { destruct t0; cbn [opt_ok]; [split; [lia|exact P2]|exact I]. }
         assert (Hts : opt_size t0 = match t0 with Some t' => size t' | None => 0 end) by reflexivity.
         destruct (IHm c0) with (rest := tk KQuestion "?" :: opt_toks t0 ++ tk KColon ":" :: prx 2 f0 ++ rest)
-                               (B := 32 * opt_size t0 + 16) (f := f) as (k & Hks & Hkg); auto; try lia.
+                               (B := 64 * opt_size t0 + 16) (f := f) as (k & Hks & Hkg); auto; try lia.
         { apply (cond_ctx t0 f0 rest Ht). }
         { unfold need in *. simpl in Hf. rewrite <- Hts in Hf. lia. }
         exists (S k). split; [simpl; lia|]. intros g.
@@ -1095,6 +1095,547 @@ Section RT5.
         unfold need in *. simpl in Hf. rewrite <- Hts in Hf. lia.
       + exists 0. split; [lia|]. intros g. rewrite Nat.add_0_r.
         pose proof (level_ge_1 c).
-        rewrite (Gc false 2 rest B f); auto; try lia. discriminate.
+        rewrite (Gc false 2 rest B f); auto; try lia; try discriminate.
   Qed.
 End RT5.
+
+Lemma stops_bin : forall L rest, bin_level L = true -> stops L rest -> binop L rest = None.
+Proof.
+  intros L rest HL H.
+  destruct L as [|[|[|[|[|[|[|[|[|[|[|[|L]]]]]]]]]]]]; try discriminate; exact H.
+Qed.
+
+Lemma primary_lbrack : forall pe tb g t x,
+  primary pe tb g ((KLBrack, t) :: x) =
+  bindr (parse_seq pe g is_rbrack x) (fun es r' => with_path pe g (EArr es) r').
+Proof.
+  intros. unfold primary.
+  assert (E : is_call_start ((KLBrack, t) :: x) = false).
+  { unfold is_call_start. destruct x as [|[k2 t2] r2]; [reflexivity|]. destruct k2; reflexivity. }
+  rewrite E. reflexivity.
+Qed.
+
+Lemma primary_call : forall pe tb g f t2 x,
+  primary pe tb g ((KIdent, f) :: (KLParen, t2) :: x) =
+  bindr (mapr (ECall (upper_name f)) (parse_seq pe g is_rparen x)) (after_call pe tb g).
+Proof. intros. reflexivity. Qed.
+
+Section RT6.
+  Variable extra : expr -> bool.
+  Local Notation bodyx := (body extra).
+  Local Notation prx := (pr extra).
+  Local Notation needsx := (needs extra).
+  Local Notation GoodAt := (GoodAt extra).
+  Local Notation GoodPr := (GoodPr extra).
+
+  Variable n : nat.
+  Hypothesis IH : forall e, size e <= n -> printable e = true -> GoodAt e.
+
+  Lemma good_bin : forall e L a b ops mk,
+    bin_view e = Some (L, a, b, ops, mk) -> size e <= S n -> printable e = true -> GoodAt e.
+  Proof.
+    intros e L a b ops mk V Hse Pe tb lv rest B f Hlv Htb [Hs [Hn Hq]] Hf.
+    destruct (bin_view_spec extra e L a b ops mk V) as (Ee & El & HL & Hb & Hop & Hst & Hnp & Hqq & Hsz & Hpr).
+    rewrite Hpr in Pe. apply andb_prop in Pe. destruct Pe as [Pa Pb].
+    assert (HL2 : 2 <= L /\ L <= 11).
+    { destruct L as [|[|[|[|[|[|[|[|[|[|[|[|L]]]]]]]]]]]]; try discriminate; lia. }
+    rewrite El in Hlv. unfold need in Hf.
+    replace f with (S (f - (L - lv) - 1) + (L - lv)) by lia.
+    set (f1 := f - (L - lv) - 1).
+    assert (Hf1 : 64 * size e + B <= f1 + 12) by (unfold f1; lia).
+    apply descend; try lia.
+    - replace (lv + (L - lv)) with L by lia.
+      destruct (RL extra n IH (size a) a (le_n _) ltac:(lia) Pa L tb (ops ++ prx (S L) b ++ rest) 0 f1 HL)
+        as (c & Hcs & Hcg).
+      { split; [|split].
+        - intros l Hl. apply Hst. lia.
+        - apply Hnp.
+        - specialize (Hqq (prx (S L) b ++ rest)).
+          destruct (ops ++ prx (S L) b ++ rest) as [|[k t] r]; [exact I|].
+          destruct k; try exact I. simpl in Hqq. congruence. }
+      { unfold need. lia. }
+      rewrite parse_at_bin by exact HL.
+      rewrite Hb. rewrite <- !app_assoc.
+      replace (bin_loop (parse_at f1) tb f1 L) with (bin_loop (parse_at f1) tb ((f1 - c) + c) L)
+        by (f_equal; lia).
+      rewrite Hcg.
+      destruct (f1 - c) as [|g] eqn:Eg; [lia|].
+      rewrite (loop_step extra n IH L a b ops mk e tb rest B f1 g V); auto; try lia.
+      + destruct g as [|g']; [lia|].
+        rewrite bin_loop_stop; [rewrite <- Ee; reflexivity|].
+        apply stops_bin; [exact HL|]. apply Hs. lia.
+      + split; [|split]; auto. intros l Hl. apply Hs. lia.
+      + unfold need. lia.
+    - intros l Hl. apply Hs. lia.
+    - intros Hl. destruct (body_hd_kind extra e rest) as (k & Hk & Hg & Hu); [rewrite Hpr, Pa, Pb; reflexivity|].
+      apply (hd_not_unop _ k Hk). apply Hu. lia.
+  Qed.
+End RT6.
+
+Section RT7.
+  Variable extra : expr -> bool.
+  Local Notation bodyx := (body extra).
+  Local Notation prx := (pr extra).
+  Local Notation GoodAt := (GoodAt extra).
+
+  Variable n : nat.
+  Hypothesis IH : forall e, size e <= n -> printable e = true -> GoodAt e.
+
+  Lemma good_un : forall o a, size a <= n -> printable a = true -> GoodAt (EUn o a).
+  Proof.
+    intros o a Hsa Pa tb lv rest B f Hlv Htb [Hs [Hn Hq]] Hf.
+    cbn [level] in Hlv. unfold need in Hf. cbn [size] in Hf.
+    replace f with (S (f - (4 - lv) - 1) + (4 - lv)) by lia.
+    set (f1 := f - (4 - lv) - 1).
+    apply descend; try lia.
+    - replace (lv + (4 - lv)) with 4 by lia.
+      assert (Ha : parse_at f1 tb 4 (prx 4 a ++ rest) = POk a rest).
+      { apply (IHpr extra n IH a Hsa Pa tb 4 4 rest B f1); auto; try lia.
+        - split; [|split]; auto. intros l Hl. apply Hs. lia.
+        - unfold need, f1. lia. }
+      change (bodyx (EUn o a)) with (un_tok o :: prx 4 a).
+      destruct o; cbn [un_tok app]; unfold tk; rewrite parse_at_4; cbn [unop_of]; rewrite Ha; reflexivity.
+    - intros l Hl. apply Hs. lia.
+  Qed.
+
+  Lemma good_cond : forall c t e0,
+    size c <= n -> printable c = true -> opt_ok n t -> size e0 <= n -> printable e0 = true ->
+    GoodAt (ECond c t e0).
+  Proof.
+    intros c t e0 Hsc Pc Ht Hs0 P0 tb lv rest B f Hlv Htb [Hs [Hn Hq]] Hf.
+    cbn [level] in Hlv, Htb.
+    assert (tb = false) by (destruct tb; [specialize (Htb eq_refl); lia|reflexivity]). subst tb.
+    unfold need in Hf. cbn [size] in Hf.
+    assert (Hts : opt_size t = match t with Some t' => size t' | None => 0 end) by reflexivity.
+    rewrite <- Hts in Hf. pose proof (size_pos e0) as Hp0. pose proof (size_pos c) as Hpc.
+    replace f with (S (f - (1 - lv) - 1) + (1 - lv)) by lia.
+    set (f1 := f - (1 - lv) - 1).
+    apply descend; try lia.
+    - replace (lv + (1 - lv)) with 1 by lia.
+      rewrite parse_at_1. rewrite (body_cond extra). rewrite <- !app_assoc. cbn [app]. rewrite <- !app_assoc.
+      destruct (RT extra n IH (size c) c (le_n _) Hsc Pc
+                  (tk KQuestion "?" :: opt_toks extra t ++ tk KColon ":" :: prx 2 e0 ++ rest)
+                  (64 * opt_size t + 16) f1) as (k & Hks & Hkg).
+      { apply (cond_ctx extra n IH t e0 rest Ht). }
+      { unfold need, f1. lia. }
+      replace (tern_loop (parse_at f1) false f1) with (tern_loop (parse_at f1) false ((f1 - k) + k))
+        by (f_equal; unfold f1; lia).
+      rewrite Hkg.
+      destruct (f1 - k) as [|g] eqn:Eg; [unfold f1 in Eg; lia|].
+      rewrite (tern_step extra n IH c t e0 rest B f1 g Ht Hs0 P0).
+      + destruct g as [|g']; [unfold f1 in Eg; lia|].
+        apply tern_loop_stop. apply (Hs 1). lia.
+      + split; [|split]; auto. intros l Hl. apply Hs. lia.
+      + unfold need, f1. lia.
+    - intros l Hl. apply Hs. lia.
+  Qed.
+
+  Definition all_ok (es : list expr) : Prop := forall x, In x es -> size x <= n /\ printable x = true.
+
+  Lemma good_arr : forall es, all_ok es -> GoodAt (EArr es).
+  Proof.
+    intros es Hall tb lv rest B f Hlv Htb [Hs [Hn Hq]] Hf.
+    unfold need in Hf. change (size (EArr es)) with (S (sum_size es)) in Hf. cbn [level] in Hlv.
+    rewrite body_arr.
+    replace f with (S (S (f + lv - 14)) + (12 - lv)) by lia.
+    apply from_primary; try lia.
+    - cbn [app]. unfold tk at 1. rewrite primary_lbrack. rewrite <- app_assoc. cbn [app].
+      unfold tk. rewrite (seq_good extra n IH es Hall is_rbrack KRBrack (bs "]") rest); try reflexivity; try lia.
+      + rewrite bindr_ok. apply with_path_none. exact Hn.
+      + intros k Hg. apply (good_head_facts k Hg).
+      + assert (List.length es <= sum_size es).
+        { clear. induction es as [|x es IHes]; [simpl; lia|]. unfold sum_size in *. simpl. pose proof (size_pos x). lia. }
+        lia.
+    - exact Hs.
+    - intros _. reflexivity.
+  Qed.
+
+  Lemma call_parts : forall f, call_ok f = true ->
+    word_kind (runes_of f) = KIdent /\ upper_name f = f.
+  Proof.
+    intros f H. unfold call_ok in H. apply andb_prop in H. destruct H as [H1 H2].
+    split; [|apply bytes_eqb_eq; exact H2].
+    destruct (word_kind (runes_of f)); try discriminate; reflexivity.
+  Qed.
+
+  (* the call itself, whatever follows *)
+  Lemma call_parsed : forall fn args rest f,
+    call_ok fn = true -> all_ok args -> 64 * sum_size args + 16 <= f -> List.length args < f ->
+    mapr (ECall (upper_name fn)) (parse_seq (parse_at f) f is_rparen (pr_list extra args ++ RP :: rest))
+    = POk (ECall fn args) rest.
+  Proof.
+    intros fn args rest f Hc Hall Hf Hlen.
+    destruct (call_parts fn Hc) as [_ Hu].
+    unfold RP, tk. rewrite (seq_good extra n IH args Hall is_rparen KRParen (bs ")") rest); try reflexivity; try lia.
+    - cbn [mapr]. rewrite Hu. reflexivity.
+    - intros k Hg. apply (good_head_facts k Hg).
+  Qed.
+
+  Lemma len_le_sum : forall es, List.length es <= sum_size es.
+  Proof.
+    induction es as [|x es IHes]; [simpl; lia|]. unfold sum_size in *. simpl. pose proof (size_pos x). lia.
+  Qed.
+
+  Lemma good_call : forall fn args, call_ok fn = true -> all_ok args -> GoodAt (ECall fn args).
+  Proof.
+    intros fn args Hc Hall tb lv rest B f Hlv Htb [Hs [Hn Hq]] Hf.
+    unfold need in Hf. change (size (ECall fn args)) with (S (sum_size args)) in Hf. cbn [level] in Hlv.
+    pose proof (len_le_sum args) as Hlen.
+    destruct (call_parts fn Hc) as [Hk _].
+    rewrite body_call.
+    replace f with (S (S (f + lv - 14)) + (12 - lv)) by lia.
+    apply from_primary; try lia.
+    - unfold word_tok, LP, RP, tk. rewrite Hk. cbn [app]. rewrite primary_call.
+      rewrite <- app_assoc. cbn [app].
+      pose proof (call_parsed fn args rest (S (f + lv - 14)) Hc Hall) as Hp.
+      unfold RP, tk in Hp. rewrite Hp by lia. rewrite bindr_ok.
+      unfold after_call. rewrite starts_path_none by exact Hn.
+      apply postfix_q_keep with (B := B); [exact Hq|lia].
+    - exact Hs.
+    - intros _. unfold word_tok. rewrite Hk. reflexivity.
+  Qed.
+End RT7.
+
+Lemma all_ok_of : forall n es, forallb printable es = true -> sum_size es <= n -> all_ok n es.
+Proof.
+  intros n es Hp Hs x Hin. split.
+  - pose proof (size_in es x Hin). unfold sum_size in Hs. lia.
+  - rewrite forallb_forall in Hp. apply Hp. exact Hin.
+Qed.
+
+Section RT8.
+  Variable extra : expr -> bool.
+  Local Notation bodyx := (body extra).
+  Local Notation prx := (pr extra).
+  Local Notation GoodAt := (GoodAt extra).
+
+  Variable n : nat.
+  Hypothesis IH : forall e, size e <= n -> printable e = true -> GoodAt e.
+
+  Definition inner (a : expr) : toks :=
+    match a with
+    | ECall _ _ => bodyx a
+    | _ => LP :: bodyx a ++ [RP]
+    end.
+  Lemma body_suppress : forall a, bodyx (ESuppress a) = LP :: inner a ++ [tk KQuestion "?"; RP].
+  Proof. intros a. destruct a; reflexivity. Qed.
+
+  Lemma inner_paren : forall a rest f,
+    size a <= n -> printable a = true -> need a + 12 <= f ->
+    parse_at (S f + 11) false 1 ((LP :: bodyx a ++ [RP]) ++ tk KQuestion "?" :: RP :: rest)
+    = POk (ESuppress a) (RP :: rest).
+  Proof.
+    intros a rest f Hsa Pa Hf.
+    apply (from_primary f false 1); try lia.
+    - cbn [app]. rewrite <- app_assoc. cbn [app].
+      rewrite primary_paren.
+      + rewrite (IH a Hsa Pa false 1 (RP :: tk KQuestion "?" :: RP :: rest) 0 f);
+          [ | apply level_ge_1 | discriminate | apply ctx_closer; reflexivity | lia ].
+        unfold RP at 1. unfold tk at 1. cbn [bind_tok is_rparen].
+        unfold tk, RP. replace f with (12 + (f - 12)) by (unfold need in Hf; pose proof (size_pos a); lia).
+        apply postfix_q_suppress.
+      + destruct (body_hd_kind extra a (RP :: tk KQuestion "?" :: RP :: rest) Pa) as (k & Hk & Hg & _).
+        rewrite Hk. destruct (good_head_facts k Hg) as [HF _]. congruence.
+    - intros l _. apply stops_closer. reflexivity.
+    - intros _. reflexivity.
+  Qed.
+
+  Lemma inner_call : forall fn args rest f,
+    call_ok fn = true -> all_ok n args -> 64 * sum_size args + 16 <= f -> List.length args < f ->
+    12 <= f ->
+    parse_at (S (S f) + 11) false 1 (bodyx (ECall fn args) ++ tk KQuestion "?" :: RP :: rest)
+    = POk (ESuppress (ECall fn args)) (RP :: rest).
+  Proof.
+    intros fn args rest f Hc Hall Hf Hlen H12.
+    destruct (call_parts fn Hc) as [Hk _].
+    apply (from_primary (S f) false 1); try lia.
+    - rewrite body_call. unfold word_tok, LP, RP, tk. rewrite Hk. cbn [app]. rewrite primary_call.
+      rewrite <- app_assoc. cbn [app].
+      pose proof (call_parsed extra n IH fn args ((KQuestion, bs "?") :: (KRParen, bs ")") :: rest) (S f) Hc Hall) as Hp.
+      unfold RP, tk in Hp.
+      match goal with |- bindr ?X _ = _ =>
+        replace X with (POk (ECall fn args) ((KQuestion, bs "?") :: (KRParen, bs ")") :: rest))
+          by (symmetry; apply Hp; lia) end.
+      rewrite bindr_ok.
+      unfold after_call. cbn [starts_path].
+      replace (S f) with (12 + (S f - 12)) by lia.
+      apply postfix_q_suppress.
+    - intros l _. apply stops_closer. reflexivity.
+    - intros _. unfold word_tok. rewrite body_call. unfold word_tok. rewrite Hk. reflexivity.
+  Qed.
+
+  Lemma good_suppress : forall a, size a <= n -> printable a = true -> GoodAt (ESuppress a).
+  Proof.
+    intros a Hsa Pa tb lv rest B f Hlv Htb [Hs [Hn Hq]] Hf.
+    cbn [level] in Hlv. unfold need in Hf. cbn [size] in Hf. pose proof (size_pos a) as Hpa.
+    rewrite body_suppress.
+    replace f with (S (f + lv - 13) + (12 - lv)) by lia.
+    set (f0 := f + lv - 13).
+    apply from_primary; try lia.
+    - cbn [app]. rewrite <- app_assoc. cbn [app].
+      rewrite primary_paren.
+      + assert (Hin : parse_at f0 false 1 (inner a ++ tk KQuestion "?" :: RP :: rest)
+                      = POk (ESuppress a) (RP :: rest)).
+        { destruct a;
+            try (replace f0 with (S (f0 - 12) + 11) by (unfold f0; lia);
+                 apply inner_paren; [exact Hsa|exact Pa|unfold need, f0; simpl; simpl in Hf; lia]).
+          (* ECall *)
+          simpl in Pa. apply andb_prop in Pa. destruct Pa as [Pc Pargs].
+          change (size (ECall f1 args)) with (S (sum_size args)) in *.
+          pose proof (len_le_sum args).
+          replace f0 with (S (S (f0 - 13)) + 11) by (unfold f0; lia).
+          apply inner_call; auto; try (unfold f0; lia).
+          apply all_ok_of; [exact Pargs|lia]. }
+        rewrite Hin. unfold RP at 1. unfold tk at 1. cbn [bind_tok is_rparen].
+        apply postfix_q_keep with (B := B); [exact Hq|unfold f0; lia].
+      + destruct a; try (cbn [inner]; unfold LP, tk; cbn [app hd_kind]; congruence).
+        cbn [inner]. rewrite body_call. unfold word_tok.
+        simpl in Pa. apply andb_prop in Pa. destruct Pa as [Pc _].
+        destruct (call_parts f1 Pc) as [Hk _]. rewrite Hk. cbn [app hd_kind]. congruence.
+    - exact Hs.
+    - intros _. reflexivity.
+  Qed.
+End RT8.
+
+(* ------------------------------------------------ the theorem *)
+Theorem good_all : forall extra n e, size e <= n -> printable e = true -> GoodAt extra e.
+Proof.
+  intros extra. induction n as [|n IHn]; intros e Hs P.
+  { pose proof (size_pos e). lia. }
+  destruct e; simpl in P; try discriminate.
+  - apply good_none.
+  - apply good_bool.
+  - apply good_int; exact P.
+  - apply good_str; exact P.
+  - (* EArr *) apply (good_arr extra n IHn). apply all_ok_of; [exact P|].
+    change (size (EArr es)) with (S (sum_size es)) in Hs. lia.
+  - apply good_var; exact P.
+  - apply good_param; exact P.
+  - (* EUn *) simpl in Hs. apply (good_un extra n IHn); [lia|exact P].
+  - (* ELog *) destruct o; eapply (good_bin extra n IHn); try reflexivity; auto.
+  - (* ECond *)
+    apply andb_prop in P. destruct P as [P P3]. apply andb_prop in P. destruct P as [P1 P2].
+    simpl in Hs. apply (good_cond extra n IHn); auto; try lia.
+    destruct t; cbn [opt_ok]; [split; [lia|exact P2]|exact I].
+  - eapply (good_bin extra n IHn); try reflexivity; auto.
+  - eapply (good_bin extra n IHn); try reflexivity; auto.
+  - eapply (good_bin extra n IHn); try reflexivity; auto.
+  - eapply (good_bin extra n IHn); try reflexivity; auto.
+  - eapply (good_bin extra n IHn); try reflexivity; auto.
+  - eapply (good_bin extra n IHn); try reflexivity; auto.
+  - (* ECall *) apply andb_prop in P. destruct P as [Pc Pa].
+    apply (good_call extra n IHn); [exact Pc|]. apply all_ok_of; [exact Pa|].
+    change (size (ECall f args)) with (S (sum_size args)) in Hs. lia.
+  - (* ESuppress *) simpl in Hs. apply (good_suppress extra n IHn); [lia|exact P].
+Qed.
+
+(* ------------------------------------------------ corollaries *)
+Lemma ctx_nil : forall tb B lv, ctx_ok tb B lv [].
+Proof.
+  intros. split; [|split]; try exact I.
+  intros l _. destruct l as [|[|[|[|[|[|[|[|[|[|[|[|l]]]]]]]]]]]]; simpl; try reflexivity; try congruence; exact I.
+Qed.
+
+(* the parser inverts the printer, with minimal or with redundant parentheses
+   ([extra] chooses where), for every continuation [rest] that cannot extend
+   the expression, and with any fuel above a bound linear in the size *)
+Theorem parse_print_gen : forall extra e rest f,
+  printable e = true -> ctx_ok false 0 1 rest -> 64 * size e + 16 <= f ->
+  parse_at f false 1 (pr extra 1 e ++ rest) = POk e rest.
+Proof.
+  intros extra e rest f P Hc Hf.
+  apply (goodpr_of_good extra e P (good_all extra (size e) e (le_n _) P) false 1 1 rest 0 f);
+    auto; try lia; try discriminate.
+  unfold need. lia.
+Qed.
+
+Theorem parse_print_expr_fuel : forall e f,
+  printable e = true -> 64 * size e + 16 <= f ->
+  parse_at f false 1 (print_expr e) = POk e [].
+Proof.
+  intros e f P Hf. unfold print_expr.
+  rewrite <- (app_nil_r (pr no_extra 1 e)).
+  apply parse_print_gen; auto. apply ctx_nil.
+Qed.
+
+Theorem parse_parens_fuel : forall extra e f,
+  printable e = true -> 64 * size e + 16 <= f ->
+  parse_at f false 1 (pr extra 1 e) = parse_at f false 1 (print_expr e).
+Proof.
+  intros extra e f P Hf. rewrite parse_print_expr_fuel by assumption.
+  rewrite <- (app_nil_r (pr extra 1 e)).
+  apply parse_print_gen; auto. apply ctx_nil.
+Qed.
+
+(* RETURN e as a program *)
+Definition ret_prog (e : expr) : program := {| p_stmts := []; p_ret := BReturn e |}.
+Definition ret_toks (extra : expr -> bool) (e : expr) : toks := tk KReturn "RETURN" :: pr extra 1 e.
+
+Lemma parse_return_plain : forall pe ts k,
+  hd_kind ts = Some k -> k <> KDistinct ->
+  parse_return pe ts = mapr (fun e => (false, e)) (pe false 1 ts).
+Proof.
+  intros pe ts k H Hk. unfold parse_return.
+  destruct ts as [|[k0 t0] r0]; [discriminate|]. simpl in H. inversion H; subst.
+  destruct k; try reflexivity. congruence.
+Qed.
+
+Theorem return_prefix : forall extra e s f g,
+  printable e = true -> hd_kind (pr extra 1 e ++ s) <> Some KDistinct ->
+  ctx_ok false 0 1 s -> 64 * size e + 16 <= f ->
+  parse_body (parse_at f) (S g) (ret_toks extra e ++ s) = POk (ret_prog e) s.
+Proof.
+  intros extra e s f g P Hd Hc Hf. unfold ret_toks, tk. cbn [app parse_body].
+  destruct (pr_hd_kind extra 1 e s P) as (k & Hk & _).
+  rewrite (parse_return_plain _ _ k Hk) by (intros ->; congruence).
+  rewrite parse_print_gen by assumption. reflexivity.
+Qed.
+
+(* ---------------- the fuel [fuel_for] gives is always enough *)
+Lemma len_wrap : forall b ts, List.length ts <= List.length (wrap b ts).
+Proof. intros [] ts; simpl; [rewrite app_length; simpl; lia|lia]. Qed.
+
+Lemma binop_nil : forall L, binop L [] = None.
+Proof. intros L. destruct L as [|[|[|[|[|[|[|[|[|[|[|[|L]]]]]]]]]]]]; reflexivity. Qed.
+
+Lemma size_le_len : forall extra n e,
+  size e <= n -> printable e = true -> size e <= List.length (body extra e).
+Proof.
+  intros extra. induction n as [|n IHn]; intros e Hs P.
+  { pose proof (size_pos e). lia. }
+  assert (Hpr : forall m x, size x <= n -> printable x = true -> size x <= List.length (pr extra m x)).
+  { intros m x Hx Px. unfold pr. pose proof (len_wrap (needs extra m x) (body extra x)).
+    specialize (IHn x Hx Px). lia. }
+  assert (Hlist : forall es, all_ok n es -> sum_size es <= List.length (pr_list extra es)).
+  { induction es as [|x es IHes]; intros Hall; [simpl; lia|].
+    destruct (Hall x (or_introl eq_refl)) as [Hx Px].
+    assert (IHes' : sum_size es <= List.length (pr_list extra es)).
+    { apply IHes. intros z Hz. apply Hall. right. exact Hz. }
+    specialize (Hpr 1 x Hx Px).
+    destruct es as [|y es'].
+    - simpl. unfold sum_size. simpl. lia.
+    - change (pr_list extra (x :: y :: es')) with (pr extra 1 x ++ COMMA :: pr_list extra (y :: es')).
+      rewrite app_length. cbn [List.length].
+      change (sum_size (x :: y :: es')) with (size x + sum_size (y :: es')). lia. }
+  destruct (bin_view e) as [[[[[L a] b] ops] mk]|] eqn:V.
+  - destruct (bin_view_spec extra e L a b ops mk V) as (_ & _ & _ & Hb & Hop & _ & _ & _ & Hsz & Hp).
+    rewrite Hp in P. apply andb_prop in P. destruct P as [Pa Pb].
+    rewrite Hb, Hsz. rewrite !app_length.
+    assert (1 <= List.length ops).
+    { destruct ops; [|simpl; lia]. specialize (Hop []). simpl in Hop. rewrite binop_nil in Hop. discriminate. }
+    pose proof (Hpr L a ltac:(lia) Pa) as Ha. pose proof (Hpr (S L) b ltac:(lia) Pb) as Hbb.
+    lia.
+  - destruct e; simpl in V; try discriminate; simpl in P; try discriminate;
+      try (simpl; lia).
+    + (* EInt *) cbn [size body]. destruct (z <? 0)%Z; simpl; lia.
+    + (* EArr *) rewrite body_arr. cbn [List.length]. rewrite app_length. cbn [List.length].
+      change (size (EArr es)) with (S (sum_size es)) in *.
+      assert (all_ok n es) by (apply all_ok_of; [exact P|lia]).
+      specialize (Hlist es H). lia.
+    + (* EUn *) cbn [size body List.length]. simpl in Hs.
+      specialize (Hpr 4 e ltac:(lia) P). unfold pr in Hpr. lia.
+    + (* ELog *) destruct o; discriminate.
+    + (* ECond *)
+      apply andb_prop in P. destruct P as [P P3]. apply andb_prop in P. destruct P as [P1 P2].
+      rewrite (body_cond extra).
+      destruct t as [t'|]; cbn [opt_toks size] in *;
+        rewrite !app_length; cbn [List.length]; rewrite ?app_length; cbn [List.length].
+      * pose proof (Hpr 1 e1 ltac:(lia) P1) as H1. pose proof (Hpr 2 e2 ltac:(lia) P3) as H3.
+        pose proof (Hpr 2 t' ltac:(lia) P2) as H2. lia.
+      * pose proof (Hpr 1 e1 ltac:(lia) P1) as H1. pose proof (Hpr 2 e2 ltac:(lia) P3) as H3. lia.
+    + (* ECall *) apply andb_prop in P. destruct P as [Pc Pa].
+      rewrite body_call. cbn [List.length]. rewrite app_length. cbn [List.length].
+      change (size (ECall f args)) with (S (sum_size args)) in *.
+      assert (all_ok n args) by (apply all_ok_of; [exact Pa|lia]).
+      specialize (Hlist args H). lia.
+    + (* ESuppress *) rewrite (body_suppress extra). cbn [size List.length]. rewrite app_length.
+      simpl in Hs. specialize (IHn e ltac:(lia) P).
+      assert (List.length (body extra e) <= List.length (inner extra e)).
+      { destruct e; cbn [inner]; try (cbn [List.length]; rewrite app_length; simpl; lia). lia. }
+      simpl. lia.
+Qed.
+
+Lemma size_le_pr : forall extra m e, printable e = true -> size e <= List.length (pr extra m e).
+Proof.
+  intros extra m e P. unfold pr. pose proof (len_wrap (needs extra m e) (body extra e)).
+  pose proof (size_le_len extra (size e) e (le_n _) P). lia.
+Qed.
+
+(* the central theorem, with the fuel the model uses: no OutOfFuel *)
+Theorem parse_print_expr_lemma : forall e, printable e = true -> parse_expr (print_expr e) = POk e [].
+Proof.
+  intros e P. unfold parse_expr. apply parse_print_expr_fuel; [exact P|].
+  unfold fuel_for, print_expr. pose proof (size_le_pr no_extra 1 e P). lia.
+Qed.
+
+(* redundant parentheses, anywhere an expression stands, change nothing *)
+Theorem parse_parens_lemma : forall extra e, printable e = true ->
+  parse_expr (pr extra 1 e) = parse_expr (print_expr e).
+Proof.
+  intros extra e P. rewrite parse_print_expr_lemma by exact P.
+  unfold parse_expr. rewrite <- (app_nil_r (pr extra 1 e)) at 2.
+  apply parse_print_gen; [exact P|apply ctx_nil|].
+  unfold fuel_for. pose proof (size_le_pr extra 1 e P). lia.
+Qed.
+
+(* RETURN e followed by tokens that cannot continue e: the program ends where
+   e ends and the rest is left over — so the query is rejected *)
+Theorem return_then_suffix : forall extra e s,
+  printable e = true -> hd_kind (pr extra 1 e ++ s) <> Some KDistinct ->
+  ctx_ok false 0 1 s ->
+  parse_prefix (ret_toks extra e ++ s) = POk (ret_prog e) s.
+Proof.
+  intros extra e s P Hd Hc. unfold parse_prefix.
+  set (F := fuel_for (ret_toks extra e ++ s)).
+  assert (HF : 64 * size e + 16 <= F /\ 1 <= F).
+  { unfold F, fuel_for, ret_toks. cbn [app List.length]. rewrite app_length.
+    pose proof (size_le_pr extra 1 e P). lia. }
+  destruct HF as [HF H1]. destruct F as [|g] eqn:EF; [lia|].
+  rewrite <- EF at 1. apply return_prefix; auto. lia.
+Qed.
+
+Theorem no_silent_suffix_lemma : forall extra e s,
+  printable e = true -> hd_kind (pr extra 1 e ++ s) <> Some KDistinct ->
+  ctx_ok false 0 1 s ->
+  parse_program (ret_toks extra e ++ s) = (match s with [] => Some (ret_prog e) | _ => None end).
+Proof.
+  intros extra e s P Hd Hc. unfold parse_program.
+  rewrite return_then_suffix by assumption. reflexivity.
+Qed.
+
+(* token classes that cannot continue an expression *)
+Definition stopper (k : kind) : bool :=
+  match k with
+  | KColon | KSemi | KComma | KRBrack | KRParen | KLBrace | KRBrace | KMinusMinus | KPlusPlus
+  | KAssign | KFor | KReturn | KWaitfor | KOptions | KTimeout | KDistinct | KFilter | KCurrent
+  | KSort | KLimit | KLet | KCollect | KSortDir | KNull | KBool | KUse | KInto | KKeep | KWith
+  | KCount | KAggregate | KEvent | KDo | KWhile | KParam | KIdent | KIgnore | KString | KInt
+  | KFloat | KNsSeg | KUnknown => true
+  | _ => false
+  end.
+
+Lemma ctx_stopper : forall k t r, stopper k = true -> ctx_ok false 0 1 ((k, t) :: r).
+Proof.
+  intros k t r H. destruct k; try discriminate; (split; [|split]; try exact I;
+    intros l _; destruct l as [|[|[|[|[|[|[|[|[|[|[|[|l]]]]]]]]]]]]; simpl; try reflexivity; try congruence; exact I).
+Qed.
+
+Theorem suffix_rejected_lemma : forall extra e k t r,
+  printable e = true -> hd_kind (pr extra 1 e ++ (k, t) :: r) <> Some KDistinct ->
+  stopper k = true ->
+  parse_program (ret_toks extra e ++ (k, t) :: r) = None.
+Proof.
+  intros extra e k t r P Hd Hk.
+  rewrite no_silent_suffix_lemma; auto. apply ctx_stopper. exact Hk.
+Qed.
+
+Theorem no_silent_suffix_both : forall extra e s,
+  printable e = true -> hd_kind (pr extra 1 e ++ s) <> Some KDistinct ->
+  ctx_ok false 0 1 s ->
+  parse_prefix (ret_toks extra e ++ s) = POk (ret_prog e) s /\
+  parse_program (ret_toks extra e ++ s) = match s with [] => Some (ret_prog e) | _ => None end.
+Proof.
+  intros extra e s P Hd Hc. split.
+  - apply return_then_suffix; assumption.
+  - apply no_silent_suffix_lemma; assumption.
+Qed.
